@@ -178,6 +178,30 @@ def h_ctparse(rp):
     P, stream = rp["args"][0], rp["args"][1]
     clause = rp["clause"]
     out = {"func": rp["func"], "clause": clause}
+    if clause in ("omitted-reference-time-is-read-at-call-time", "documented-defaults"):
+        import inspect
+        sig = inspect.signature(C.ctparse)
+        d = {k: p.default for k, p in sig.parameters.items()}
+        out["signature_defaults"] = {k: repr(v) for k, v in d.items()}
+        seen = {}
+        orig = C.ctparse_gen
+
+        def fake(*a, **k):
+            seen["b"] = inspect.signature(orig).bind(*a, **k)
+            return iter(())
+        C.ctparse_gen = fake
+        try:
+            C.ctparse("some text")
+        finally:
+            C.ctparse_gen = orig
+        got = dict(seen["b"].arguments)
+        out["reached_the_stream"] = {k: repr(v) for k, v in got.items()}
+        if clause.startswith("omitted"):
+            out["confirmed"] = got.get("ts") is not None      # evaluated once at import, not at call time
+        else:
+            doc = {"timeout": 1.0, "relative_match_len": 1.0, "max_stack_depth": 10, "scorer": None, "latent_time": True}
+            out["confirmed"] = any(got.get(k) != v for k, v in doc.items())
+        return out
     if clause == "no-match-subject-and-labels-as-on-the-match-path":
         ts = datetime(2018, 3, 7, 12, 43)
         diffs = []
@@ -254,7 +278,41 @@ def h_ctparse(rp):
     return out
 
 
-HANDLERS = [("ctparse.ctparse[", h_ctparse), ("regex[", h_reglan),
+def h_labels(rp):
+    import importlib
+    import os
+    import subprocess
+    import sys
+    from datetime import datetime
+    C = importlib.import_module("ctparse.ctparse")
+    a = rp["args"]
+    out = {"func": rp["func"], "clause": rp["clause"]}
+    if a.get("kind") == "hashtag":
+        w = a["word"]
+        text = "foo " + w + " bar"
+        r = C.ctparse(text, ts=datetime(2018, 3, 7, 12, 43), timeout=0)
+        out["text"], out["labels"], out["subject"] = text, r.labels, r.subject
+        out["confirmed"] = not (r.labels == [w[1:]] and r.subject == "foo bar")
+        return out
+    if a.get("kind") == "label-order":
+        text = "#zeta #alpha #mid #beta #omega #kappa"
+        want = ["zeta", "alpha", "mid", "beta", "omega", "kappa"]
+        seen = []
+        for seed in ("0", "1", "2", "3", "4", "5"):
+            env = dict(os.environ, PYTHONHASHSEED=seed)
+            p = subprocess.run([sys.executable, "-W", "ignore", "-c",
+                                "import importlib,json;C=importlib.import_module('ctparse.ctparse');print(json.dumps(C._get_labels(%r)))" % text],
+                               env=env, capture_output=True, text=True)
+            seen.append(p.stdout.strip())
+        out["label_lists_under_6_hash_seeds"] = sorted(set(seen))
+        import json as _j
+        out["confirmed"] = any(_j.loads(x) != want for x in seen if x)
+        return out
+    out["confirmed"] = False
+    return out
+
+
+HANDLERS = [("ctparse._get_labels", h_labels), ("ctparse.ctparse[", h_ctparse), ("regex[", h_reglan),
             ("types.Artifact.__eq__", h_eq), ("corpus.parse_nb_string.nb_str", h_roundtrip),
             ("postprocess_latent.apply_postprocessing_rules", h_postprocess),
             ("types.Time.", h_accessor), ("types.Interval.", h_accessor),
